@@ -438,7 +438,14 @@ func Serve(opts Options) error {
 		if ln != nil {
 			ln.Close()
 		}
+		// liveAOF adds and removes entries under the server lock
+		s.mu.RLock()
+		aofconns := make(map[net.Conn]io.Closer, len(s.aofconnM))
 		for conn, f := range s.aofconnM {
+			aofconns[conn] = f
+		}
+		s.mu.RUnlock()
+		for conn, f := range aofconns {
 			conn.Close()
 			f.Close()
 		}
